@@ -165,6 +165,14 @@ func (e *CEnv) eval(x *CExpr) (Val, error) {
 			return Val{}, fmt.Errorf("result used but function has no result")
 		}
 		return e.results[0], nil
+	case "pre":
+		// pre(e): e in the state at entry of the loop whose invariant this is
+		if e.loopEntry == nil {
+			return Val{}, fmt.Errorf("pre() is only available in loop invariants")
+		}
+		n := e.sub()
+		n.st = e.loopEntry
+		return n.eval(x.Args[0])
 	case "old":
 		if e.old == nil {
 			return Val{}, fmt.Errorf("old() not available here")
@@ -739,6 +747,12 @@ func (e *CEnv) resolveType(t *CType) (types.Type, error) {
 			return nil, err
 		}
 		return &specSet{el}, nil
+	case "seq":
+		el, err := e.resolveType(t.Elem)
+		if err != nil {
+			return nil, err
+		}
+		return types.NewArray(el, 0), nil
 	}
 	name := t.Name
 	switch name {
@@ -902,6 +916,42 @@ func (e *CEnv) callExpr(x *CExpr) (Val, error) {
 		}
 		name, sort := c.elemHeap(sl.Elem())
 		return Val{T: sl.Elem(), Term: sel(sel(c.heapGet(e.st, name, sort), app("sl_base", as[0].Term)), as[1].Term)}, nil
+	case "elems":
+		// elems(s): the backing array of slice s as a mathematical sequence (absolute positions)
+		as, err := evalArgs()
+		if err != nil {
+			return Val{}, err
+		}
+		sl, ok := as[0].T.Underlying().(*types.Slice)
+		if !ok {
+			return Val{}, fmt.Errorf("elems() needs a slice")
+		}
+		name, sort := c.elemHeap(sl.Elem())
+		return Val{T: types.NewArray(sl.Elem(), 0), Term: sel(c.heapGet(e.st, name, sort), app("sl_base", as[0].Term))}, nil
+	case "sqrt":
+		as, err := evalArgs()
+		if err != nil {
+			return Val{}, err
+		}
+		if c.floatsIEEE {
+			return Val{T: tFloat, Term: app("fp.sqrt", "RNE", as[0].Term)}, nil
+		}
+		c.smt.declareFun("real_sqrt", []string{"Real"}, "Real")
+		return Val{T: tFloat, Term: app("real_sqrt", c.toFloat(as[0], as[0].Term))}, nil
+	case "absf":
+		as, err := evalArgs()
+		if err != nil {
+			return Val{}, err
+		}
+		t := c.toFloat(as[0], as[0].Term)
+		return Val{T: tFloat, Term: ite(app(">=", t, "0.0"), t, app("-", t))}, nil
+	case "hasPrefix":
+		as, err := evalArgs()
+		if err != nil {
+			return Val{}, err
+		}
+		c.smt.declareFun("str_hasprefix", []string{"Str", "Str"}, "Bool")
+		return Val{T: tBool, Term: app("str_hasprefix", as[0].Term, as[1].Term)}, nil
 	case "objOf":
 		as, err := evalArgs()
 		if err != nil {
